@@ -13,6 +13,8 @@ import (
 
 	"example.com/scion-time/core/client"
 	"example.com/scion-time/core/sync"
+	"example.com/scion-time/net/scion"
+	"example.com/scion-time/net/udp"
 
 	"verif.local/sim/simcore"
 	"verif.local/sim/worlds"
@@ -28,6 +30,15 @@ func TestVerifSim(t *testing.T) {
 			return newNTPReferenceClockIP(log, localAddr, remoteAddr, dscp, authModes, ntskeServer, insecureSkipVerify)
 		},
 		DefaultSyncConfig: func() sync.Config { return syncConfig(svcConfig{}) },
+		NewNTPReferenceClockSCION: func(log *slog.Logger, localAddr, remoteAddr udp.UDPAddr, dscp uint8, pather *scion.Pather) (client.ReferenceClock, []*client.SCIONClient) {
+			c := newNTPReferenceClockSCION(log, "", localAddr, remoteAddr, dscp, nil, "", false)
+			c.pather = pather
+			return c, c.ntpcs[:]
+		},
+		SyncConfigFrom: func(refImpact, peerImpact, cutoffSec, timeoutSec, intervalSec float64) sync.Config {
+			return syncConfig(svcConfig{ReferenceClockImpact: refImpact, PeerClockImpact: peerImpact, PeerClockCutoff: cutoffSec,
+				SyncTimeout: timeoutSec, SyncInterval: intervalSec})
+		},
 	}
 	simcore.WorkerMain(t)
 }
